@@ -25,9 +25,16 @@ Definition ok_disp (c : dcase) : bool :=
               | [call], Ok (Some (doc, _)) =>
                   (* the body ran once with exactly the direct-call environment and its return value is the result *)
                   list_eqb json_equiv (calls_of evs) [call]
-                  && match obj_get "result" doc, call with
-                     | Some res, JArr [_; _; envj] => json_equiv res envj
-                     | _, _ => false end
+                  && match md_body m with
+                     | BExc _ =>
+                         (* ... a body that itself fails (with whatever exception type, TypeError included) was still accepted and
+                            run: the answer is the server error, never "invalid params" *)
+                         match obj_get "error" doc with Some e => has_code ServerError_code ServerError_message e | None => false end
+                     | _ =>
+                         match obj_get "result" doc, call with
+                         | Some res, JArr [_; _; envj] => json_equiv res envj
+                         | _, _ => false end
+                     end
               | [], Ok (Some (doc, _)) =>
                   (* a direct call could not bind: -32602 and the body did not run *)
                   match obj_get "error" doc with Some e => has_code InvalidParamsError_code InvalidParamsError_message e | None => false end
